@@ -166,6 +166,13 @@ Definition repair_except_packs (x : st) : st :=
 Definition repair_packs (tp : list id) (x : st) : st := repair_type Pack (fun i => mem i tp) x.
 Definition repair_all (tp : list id) (x : st) : st := repair_packs tp (repair_except_packs x).
 
+(* get_tree_packs: ids of the packs the index files name, in the sections the code reads, whose blobs
+   are of the kept type; repair_hotcold_packs hands this set to correct_missing_files *)
+Definition tree_packs_of (idx : list index_entry) : list id :=
+  map ie_id (filter (fun e => existsb (sec_eqb (ie_sec e)) tree_pack_sections
+                              && blob_eqb (ie_blob e) tree_pack_blob) idx).
+Definition repair_all_idx (idx : list index_entry) (x : st) : st := repair_all (tree_packs_of idx) x.
+
 (* files taken away from (or cut short in) the hot store before the repair *)
 Definition remove_hot (ks : list key) (x : st) : st := mkst (fold_left (fun s k => del k s) ks (hot x)) (cold x).
 Definition truncate_hot (k : key) (n : nat) (x : st) : st :=
